@@ -157,7 +157,9 @@ impl<'a> Noise<'a> {
 fn cell_head(col: u32, xf: Option<usize>) -> Vec<u8> {
     let mut d = col.to_le_bytes().to_vec();
     let s = xf.unwrap_or(0) as u32;
-    d.extend_from_slice(&[s as u8, (s >> 8) as u8, (s >> 16) as u8, 0]);
+    // byte 7: fPhShow (bit 0, "show phonetic"); set for cells in odd columns of styled cells
+    let ph = (xf.is_some() && col % 2 == 1) as u8;
+    d.extend_from_slice(&[s as u8, (s >> 8) as u8, (s >> 16) as u8, ph]);
     d
 }
 
